@@ -444,7 +444,7 @@ def decorate(rng, td, o):
                         mode = "marker"
                 e = {"ty": tgt, "mode": mode}
                 if mode == "method":
-                    e["method"] = RT + {"u8": "into_u8_alt", "u16": "into_u16_alt"}.get(tgt, "into_w_alt")
+                    e["method"] = RT + {"u8": "into_u8_alt", "u16": "into_u16_alt", RT + "T": "into_t_alt"}.get(tgt, "into_w_alt")
                 if mode in ("marker", "method"):
                     f.sem.setdefault("Into", []).append({k: e[k] for k in ("ty", "method") if k in e})
                 f.sem.setdefault("_into", {})[tgt] = e
@@ -541,12 +541,16 @@ def designate(rng, td, o):
                 f.kind = tk
                 v.des[tr] = f
     if "Into" in tset:
-        targets = rng.sample(INTO_TARGETS, rng.randint(1, 3))
+        pool = list(INTO_TARGETS)
+        if "Copy" not in tset and td.notes["garg"] in ("T",):
+            pool.append(RT + "T")
+        targets = rng.sample(pool, rng.randint(1, 3))
         td.notes["into_targets"] = targets
         for v in td.variants:
             v.des["Into"] = {}
             for tgt in targets:
-                cands = [f for f in v.fields if f.kind.key in CONVERTIBLE]
+                conv = CONVERTIBLE if tgt != RT + "T" else {"T", "G"}
+                cands = [f for f in v.fields if f.kind.key in conv]
                 if not cands:
                     v.fields[0].kind = tk
                     cands = [v.fields[0]]
